@@ -403,17 +403,22 @@ func (e *Encoder) Encode(d interface{}) error {
 			"NewEncoder. Try EncodeFields instead.")
 	}
 	v := reflect.Indirect(reflect.ValueOf(d))
-	for i, j := range e.fieldIndices {
-		if err := e.Writer.WriteAttribute(e.row, i, v.Field(j).Interface()); err != nil {
-			return fmt.Errorf("shp: %v", err)
-		}
-	}
 
+	// The shape has to be written before the attributes: writing it appends
+	// an empty attribute row at the end of the DBF file, and if the attributes
+	// of this row are already there the row marker lands right behind the last
+	// attribute value (a string in the last field came back with a blank
+	// appended).
 	shape, err := geom2Shp(v.Field(e.geomIndex).Interface().(geom.Geom))
 	if err != nil {
 		return err
 	}
 	e.Writer.Write(shape)
+	for i, j := range e.fieldIndices {
+		if err := e.Writer.WriteAttribute(e.row, i, v.Field(j).Interface()); err != nil {
+			return fmt.Errorf("shp: %v", err)
+		}
+	}
 	e.row++
 	return nil
 }
